@@ -53,9 +53,18 @@ pub const HANG_SECS: u64 = 10;
 pub fn run_guarded<T: Send + 'static, F: FnOnce() -> T + Send + 'static>(stats: &mut Stats, prop: &str, operation: &str, detail: &dyn Fn() -> String, f: F) -> Option<T> {
     match guarded(HANG_SECS, f) {
         Guard::Done(v) => Some(v),
-        Guard::Panic => { stats.fail(prop, &format!("panic.{}", operation), &format!("[{}] {}", last_panic(), detail())); None }
+        Guard::Panic => { let m = last_panic(); stats.fail(prop, &format!("panic.{}{}", operation, panic_class(&m)), &format!("[{}] {}", m, detail())); None }
         Guard::Hang => { stats.fail(prop, &format!("hang.{}", operation), &format!("no result after {} s: {}", HANG_SECS, detail())); None }
     }
+}
+
+/// the call site of a panic, as a key suffix (so that a listed finding names one panic, not every panic of an operation)
+pub fn panic_class(message: &str) -> &'static str {
+    if message.contains("does not correctly implement a total order") { ".sort_comparator_not_a_total_order" }
+    else if message.contains("unimplemented") || message.contains("not implemented") { ".unimplemented" }
+    else if message.contains("index out of bounds") { ".index_out_of_bounds" }
+    else if message.contains("unwrap") { ".unwrap_on_none" }
+    else { "" }
 }
 
 /// panic guard without the helper thread, for operations that are not known to loop
@@ -63,7 +72,7 @@ pub fn run_caught<T, F: FnOnce() -> T>(stats: &mut Stats, prop: &str, operation:
     quiet_panics();
     match std::panic::catch_unwind(std::panic::AssertUnwindSafe(f)) {
         Ok(v) => Some(v),
-        Err(_) => { stats.fail(prop, &format!("panic.{}", operation), &format!("[{}] {}", last_panic(), detail())); None }
+        Err(_) => { let m = last_panic(); stats.fail(prop, &format!("panic.{}{}", operation, panic_class(&m)), &format!("[{}] {}", m, detail())); None }
     }
 }
 
@@ -511,6 +520,40 @@ impl Operand {
     pub fn new(paths: &Vec<P>) -> Operand { Operand { flat: flatten_set(paths), fine: flatten_set_fine(paths) } }
     pub fn contains(&self, p: Coord2, fine: bool) -> bool { evenodd(p, if fine { &self.fine } else { &self.flat }) }
     pub fn winding(&self, p: Coord2, fine: bool) -> i32 { winding_sum(p, if fine { &self.fine } else { &self.flat }) }
+}
+
+/// `.vertex_near_boundary` when a vertex of one operand lies within 0.1 of (but not exactly on) the boundary of another:
+/// a crossing next to a vertex is a recognisable special configuration of the input (collisions there are snapped to the vertex)
+pub fn near_contact_suffix(sets: &[&Vec<P>]) -> &'static str {
+    let flats: Vec<Vec<Poly>> = sets.iter().map(|s| flatten_set_fine(s)).collect();
+    for (i, si) in sets.iter().enumerate() {
+        for path in si.iter() {
+            for v in vertices(path) {
+                for (j, fj) in flats.iter().enumerate() {
+                    if i == j { continue; }
+                    let d = dist_polys(v, fj);
+                    if d > 1e-9 && d < 0.1 { return ".vertex_near_boundary"; }
+                }
+            }
+        }
+    }
+    ""
+}
+
+/// for operand lists without a relation class of their own (chains, expression trees): `.boundaries_touch` when a vertex of one
+/// operand lies exactly on the boundary of another (identical operands, shared edges, vertex contacts), else as `near_contact_suffix`
+pub fn contact_suffix_all(sets: &[&Vec<P>]) -> &'static str {
+    let flats: Vec<Vec<Poly>> = sets.iter().map(|s| flatten_set_fine(s)).collect();
+    for (i, si) in sets.iter().enumerate() {
+        for path in si.iter() {
+            for v in vertices(path) {
+                for (j, fj) in flats.iter().enumerate() {
+                    if i != j && dist_polys(v, fj) <= 1e-9 { return ".boundaries_touch"; }
+                }
+            }
+        }
+    }
+    near_contact_suffix(sets)
 }
 
 /// the property's margin from every input boundary, plus the flattening error of the oracle (<= 0.005 for radius <= 30)
